@@ -53,6 +53,7 @@ class SymMgr:
         # (can be iterated / filtered by the code under analysis)
         self.cache_model = cache_model
         self.cache_entries = cache_entries
+        self.decl = 'identity'
         self.assoc = []
 
     # ---- pre-state
@@ -78,10 +79,24 @@ class SymMgr:
     def ite_axiom(self, g, u, v):
         return ite_axiom_at(self.axst, self.den, self.N, g, u, v)
 
-    def install(self, B, reordering=False):
-        """Create a real BDD and replace its tables by proxies."""
+    def install(self, B, reordering=False, decl=None):
+        """Create a real BDD and replace its tables by proxies.
+
+        decl: the *declaration* (dict insertion) order of the variables, which
+        after swaps differs from the level order in real histories:
+        'identity', 'reversed', or 'choose' (both explored)."""
         cls = nodel_class(B)
-        bdd = cls({nm: i for i, nm in enumerate(self.names)})
+        decl = decl or self.decl
+        items = [(nm, i) for i, nm in enumerate(self.names)]
+        if decl == 'choose':
+            decl = ['identity', 'reversed'][engine.CTX.choose(2, 'declaration-order')]
+        if decl == 'reversed':
+            items.reverse()
+        self.decl_used = decl
+        bdd = cls(dict(items))
+        if decl == 'reversed':
+            # keep `_level_to_var` in the same (reversed) insertion order
+            bdd._level_to_var = {i: nm for nm, i in items}
         st = self.st
         bdd._succ = self.succ = SuccTab(st, self.maxid)
         bdd._pred = self.pred = Tab3(st, 'PR', self.pred_axiom)
@@ -300,6 +315,8 @@ class SymMgr:
                     cache.append(list(kv) + [r])
         case = dict(L=self.L, names=list(self.names), maxid=maxid, succ=succ,
                     min_free=evi(st.MF), cache=cache)
+        if getattr(self, 'decl_used', 'identity') != 'identity':
+            case['decl'] = self.decl_used
         if self.with_refs:
             case['ref'] = ref
             case['ext'] = ext
